@@ -67,7 +67,7 @@ theorem C01_plan_shift (ml off pad : Nat) (disp : Option Int)
     the metadata itself) and the shift does not fit a signed 32-bit value. -/
 theorem C01_plan_refused (ml off : Nat) :
     (∃ e, planRewrite ml off = .error e) ↔
-      ((ml ≤ off ∧ 2147483647 < off - ml ∧ (4294967287 < off - ml ∨ ml < off - ml)) ∨
+      ((ml ≤ off ∧ 2147483648 < off - ml ∧ (4294967287 < off - ml ∨ ml < off - ml)) ∨
        (off < ml ∧ 2147483647 < ml - off)) := by
   unfold planRewrite
   dsimp only
